@@ -1,0 +1,13 @@
+//go:build verif
+
+package syncutils
+
+// VerifPopOrWaitHook, when set, is called by Stack.PopOrWait after the wait condition was evaluated to true and before
+// the caller starts to wait for an element (verification builds only). The argument is the *Stack[T].
+var VerifPopOrWaitHook func(stack any)
+
+func verifPopOrWaitGap(stack any) {
+	if hook := VerifPopOrWaitHook; hook != nil {
+		hook(stack)
+	}
+}
